@@ -385,7 +385,7 @@ func checkAttrLookupShape(p *Program, r *Report, pl *Policy) {
 				}
 				if l3, ok := a.E.Val.(*ssa.Lookup); ok && !l3.CommaOk && l3.Index == elemP {
 					if u, ok := l3.X.(*ssa.UnOp); ok {
-						if g, ok := u.X.(*ssa.Global); ok && g.Name() == "allowedVoidElements" {
+						if g, ok := u.X.(*ssa.Global); ok && cname(g) == "allowedVoidElements" {
 							return true
 						}
 					}
@@ -405,7 +405,7 @@ func isRelLookup(v ssa.Value) bool {
 		return false
 	}
 	if u, ok := lk.X.(*ssa.UnOp); ok {
-		if g, ok := u.X.(*ssa.Global); ok && g.Name() == "urlLinkRelVals" {
+		if g, ok := u.X.(*ssa.Global); ok && cname(g) == "urlLinkRelVals" {
 			return true
 		}
 	}
@@ -590,7 +590,7 @@ func checkConditionalNames(p *Program, r *Report, rule string) {
 		for _, b := range fn.Blocks {
 			for _, in := range b.Instrs {
 				if c, ok := in.(*ssa.Call); ok {
-					if f := staticCallee(c.Common()); f != nil && f.Name() == w.callee {
+					if f := staticCallee(c.Common()); f != nil && cname(f) == w.callee {
 						call = c
 					}
 				}
@@ -832,7 +832,7 @@ func checkForbiddenPositions(p *Program, r *Report, rule string) {
 	for _, b := range fn.Blocks {
 		for _, in := range b.Instrs {
 			if c, ok := in.(*ssa.Call); ok {
-				if f := staticCallee(c.Common()); f != nil && f.Name() == "sanitizersForAttributeValue" {
+				if f := staticCallee(c.Common()); f != nil && cname(f) == "sanitizersForAttributeValue" {
 					attrCall = c
 				}
 			}
